@@ -145,7 +145,16 @@ class Arginfo:
 
     @cached_property
     def is_complex(self):
-        return isinstance(self.ann, GenericAlias)
+        def complex_type(t):
+            # type[...] / generic aliases, also as members of unions and
+            # intersections: arguments there may be types themselves
+            if isinstance(t, GenericAlias):
+                return True
+            return hasattr(t, "_handler") and any(
+                complex_type(t2) for t2 in getattr(t, "__args__", ())
+            )
+
+        return complex_type(self.ann)
 
     @cached_property
     def canonical(self):
